@@ -38,7 +38,8 @@ PLAN = dict(
                     "an undefined operation (VIOL class=rv-semantic-mismatch otherwise), a panic at <= 14 live variables is VIOL "
                     "class=rv-capacity-panic, and the result equals that of the x86-64 code on Sem/X86Sem.v and of the AArch64 code on Sem/A64Sem.v (class=rv-x86-disagree, "
                     "class=rv-a64-disagree). "
-                    "Programs with prints or beyond 14 live variables are SKIPped by the semantic step (print_i64 panics on this back end).",
+                    "Programs with prints or beyond 14 live variables are SKIPped by the semantic step (print_i64 panics on this back end)."
+                " Round 4: asm_wf and code_small are theorems (C14_rv_compile_asm_wf, C14_rv_compile_code_small): C08_codegen_simulates_wf_partial / C08_codegen_correct_linearized_wf_partial take boolean guards on the program instead (labels_guard, imm_guard_rv = literals 64-bit, at most 512 xtors per type; size_guard); h_frag remains",
         assumptions=[
             "the RV64 ISA model Sem/RVSem.v follows the RISC-V unprivileged specification and the assembler manual's pseudo-instruction "
             "expansions; it cannot be validated against hardware or an emulator in this environment (no RISC-V tool chain)",
